@@ -78,6 +78,7 @@ type c11Req struct {
 	TraceFile string   `json:"trace_file"`
 	Shard     int      `json:"shard"`
 	NShards   int      `json:"nshards"`
+	FinalLen  int      `json:"final_len"` // transcript: truncate the final polynomial to this many coefficients (0 = as in the proof)
 }
 
 func init() { drv.Register("c11", c11) }
@@ -407,6 +408,12 @@ func c11Transcript(req c11Req, o *ref.Oracle, resp *drv.Response, rng *rand.Rand
 	}
 	for _, variant := range req.Variants {
 		l := data.Load(inst, req.K)
+		if req.FinalLen > 0 && req.FinalLen < len(l.PWPI.Proof.OpeningProof.FinalPoly.Coeffs) {
+			// the transcript of a proof whose final polynomial leaves the sponge's input block partly filled when the proof-of-work
+			// witness arrives (GetChallenges reads the list as it is; the script is generated for the same length)
+			cs := l.PWPI.Proof.OpeningProof.FinalPoly.Coeffs
+			l.PWPI.Proof.OpeningProof.FinalPoly.Coeffs = append(cs[:0:0], cs[:req.FinalLen]...)
+		}
 		base := variant
 		if i := strings.Index(variant, "+pow"); i >= 0 {
 			// the transcript does not depend on the grinding difficulty: plonky2 always observes the witness and draws the response
